@@ -208,6 +208,168 @@ fn compare_reposition_range(pre: &Ledger, ix: &Ix, live_ok: bool, live_code: Opt
     }
 }
 
+
+/// reposition has no Anchor twin as a whole, but it has an Anchor decomposition: withdraw everything
+/// (`decrease_liquidity_v2`, Anchor implementation), re-range the emptied position (`reset_position_range`, Anchor,
+/// with the owed fees / rewards set aside for that one step, because reposition keeps them) and deposit the new
+/// liquidity (`increase_liquidity_v2`, Anchor implementation). Pool, position and all four tick arrays must end up
+/// byte-identical, and with fee-less mints the vaults and the owner's accounts must have moved by the same net amounts.
+fn compare_reposition_decomposed(pre: &Ledger, post: &Ledger, ix: &Ix, idx: usize, cov: &mut Coverage, out: &mut Vec<Violation>) {
+    let Some(c) = wpix::decode(ix) else { return };
+    if !c.remaining().is_empty() {
+        return; // transfer-hook accounts: the slices of the two instruction families are described differently
+    }
+    let pk = c.a("position");
+    let wk = c.a("whirlpool");
+    let (Some(p0), Some(w0)) = (pre.data(&pk).and_then(decode::position), pre.data(&wk).and_then(decode::pool)) else { return };
+    let mut r = c.args();
+    let (lo, hi) = (r.i32(), r.i32());
+    let _ = r.u8();
+    let new_l = r.u128();
+    let mut f = pre.clone();
+    let apply = |f: &mut Ledger, post: &[PostAccount]| {
+        for a in post {
+            let exe = f.get(&a.key).map(|x| x.executable).unwrap_or(false);
+            f.put(a.key, rt::Account { lamports: a.lamports, data: std::rc::Rc::new(a.data.clone()), owner: a.owner, executable: exe });
+        }
+    };
+    // the owner never lacks funds on the copy (the single instruction only needs the net amount)
+    let plain = |m: &solana_program::pubkey::Pubkey| pre.get(m).map(|a| a.owner == crate::ix::tok()).unwrap_or(false);
+    let both_plain = plain(&w0.mint_a) && plain(&w0.mint_b);
+    let mut topped: Vec<(solana_program::pubkey::Pubkey, u64)> = Vec::new();
+    for k in [c.a("token_owner_account_a"), c.a("token_owner_account_b")] {
+        if let Some(a) = f.get(&k).cloned() {
+            if a.data.len() >= 72 {
+                let mut d = (*a.data).clone();
+                let have = u64::from_le_bytes(d[64..72].try_into().unwrap());
+                let want = have.max(1u64 << 62);
+                d[64..72].copy_from_slice(&want.to_le_bytes());
+                f.put(k, rt::Account { lamports: a.lamports, data: std::rc::Rc::new(d), owner: a.owner, executable: false });
+                topped.push((k, want));
+            }
+        }
+    }
+    let accs = |tl: solana_program::pubkey::Pubkey, tu: solana_program::pubkey::Pubkey| whirlpool::accounts::ModifyLiquidityV2 {
+        whirlpool: wk,
+        token_program_a: c.a("token_program_a"),
+        token_program_b: c.a("token_program_b"),
+        memo_program: c.a("memo_program"),
+        position_authority: c.a("position_authority"),
+        position: pk,
+        position_token_account: c.a("position_token_account"),
+        token_mint_a: c.a("token_mint_a"),
+        token_mint_b: c.a("token_mint_b"),
+        token_owner_account_a: c.a("token_owner_account_a"),
+        token_owner_account_b: c.a("token_owner_account_b"),
+        token_vault_a: c.a("token_vault_a"),
+        token_vault_b: c.a("token_vault_b"),
+        tick_array_lower: tl,
+        tick_array_upper: tu,
+    };
+    if p0.liquidity > 0 {
+        let dec = crate::ix::mk(
+            accs(c.a("existing_tick_array_lower"), c.a("existing_tick_array_upper")),
+            whirlpool::instruction::DecreaseLiquidityV2 { liquidity_amount: p0.liquidity, token_min_a: 0, token_min_b: 0, remaining_accounts_info: None },
+        );
+        let (o, pa) = rt::exec_ix_anchor_twin(&f, &dec, &ExecOpts::default());
+        if !o.ok() {
+            cov.note(&format!("c12_reposition_decomposition_withdrawal_fails_{:#x}", o.code.min(0xffff_ffff)));
+            return;
+        }
+        apply(&mut f, &pa);
+    }
+    // re-range: owed amounts set aside for this one step
+    let Some(pa) = f.get(&pk).cloned() else { return };
+    if pa.data.len() != 216 {
+        return;
+    }
+    let owed_ranges: [(usize, usize); 5] = [(112, 120), (136, 144), (160, 168), (184, 192), (208, 216)];
+    let saved = (*pa.data).clone();
+    let mut d = saved.clone();
+    for (a, b) in owed_ranges {
+        d[a..b].fill(0);
+    }
+    f.put(pk, rt::Account { lamports: pa.lamports, data: std::rc::Rc::new(d), owner: pa.owner, executable: false });
+    let reset = crate::ix::mk(
+        whirlpool::accounts::ResetPositionRange {
+            funder: c.a("funder"),
+            position_authority: c.a("position_authority"),
+            whirlpool: wk,
+            position: pk,
+            position_token_account: c.a("position_token_account"),
+            system_program: crate::ix::sys(),
+        },
+        whirlpool::instruction::ResetPositionRange { new_tick_lower_index: lo, new_tick_upper_index: hi },
+    );
+    let a = rt::exec_tx_simple(&mut f, &rt::Tx { ixs: vec![reset] });
+    if !a.ok {
+        cov.note(&format!("c12_reposition_decomposition_reset_fails_{:?}", a.custom()));
+        return;
+    }
+    let Some(pa) = f.get(&pk).cloned() else { return };
+    let mut d = (*pa.data).clone();
+    for (a, b) in owed_ranges {
+        d[a..b].copy_from_slice(&saved[a..b]);
+    }
+    f.put(pk, rt::Account { lamports: pa.lamports, data: std::rc::Rc::new(d), owner: pa.owner, executable: false });
+    let inc = crate::ix::mk(
+        accs(c.a("new_tick_array_lower"), c.a("new_tick_array_upper")),
+        whirlpool::instruction::IncreaseLiquidityV2 { liquidity_amount: new_l, token_max_a: u64::MAX, token_max_b: u64::MAX, remaining_accounts_info: None },
+    );
+    let (o, pa2) = rt::exec_ix_anchor_twin(&f, &inc, &ExecOpts::default());
+    if !o.ok() {
+        // the single instruction succeeded: the deposit of the same liquidity into the same range must be computable
+        if is_program_code(o.code) {
+            out.push(viol("success_mismatch", idx, format!("reposition_liquidity_v2 succeeded, but the Anchor increase_liquidity_v2 of L={} into {}..{} on the re-ranged copy fails with {:#x}", new_l, lo, hi, o.code)));
+        } else {
+            cov.note(&format!("c12_reposition_decomposition_deposit_fails_{:#x}", o.code.min(0xffff_ffff)));
+        }
+        return;
+    }
+    apply(&mut f, &pa2);
+    cov.eval(format!("reposition_decomposed|had_liquidity={}|dyn={}|sp={}", p0.liquidity > 0, [c.a("new_tick_array_lower"), c.a("existing_tick_array_lower")].iter().filter(|k| pre.data(k).map(|d| decode::is_kind(d, "DynamicTickArray")).unwrap_or(false)).count(), w0.tick_spacing));
+    cov.probe("reposition_vs_anchor_decomposition_compared");
+    let mut keys = vec![("whirlpool", wk), ("position", pk)];
+    for n in ["existing_tick_array_lower", "existing_tick_array_upper", "new_tick_array_lower", "new_tick_array_upper"] {
+        let k = c.a(n);
+        // an existing array of an empty position is never looked at (known finding of C15): only arrays of this pool count
+        let is_arr = pre.data(&k).map(|d| decode::tick_array(d).map(|t| t.whirlpool == wk).unwrap_or(false)).unwrap_or(false);
+        if is_arr && !keys.iter().any(|(_, x)| *x == k) {
+            keys.push((n, k));
+        }
+    }
+    for (n, k) in &keys {
+        let (l, t) = (post.data(k), f.data(k));
+        if l != t {
+            let first = match (l, t) {
+                (Some(x), Some(y)) => x.iter().zip(y.iter()).position(|(p, q)| p != q),
+                _ => None,
+            };
+            out.push(viol("reposition_differs_from_decomposition", idx, format!("reposition_liquidity_v2 ({}..{} L={} -> {}..{} L={}): account `{}` differs from withdraw + re-range + deposit through the Anchor implementation (len {:?} vs {:?}, first differing byte {:?})", p0.lower, p0.upper, p0.liquidity, lo, hi, new_l, n, l.map(|x| x.len()), t.map(|x| x.len()), first)));
+            return;
+        }
+    }
+    if both_plain {
+        let amt = |l: &Ledger, k: &solana_program::pubkey::Pubkey| l.data(k).filter(|d| d.len() >= 72).map(|d| u64::from_le_bytes(d[64..72].try_into().unwrap()) as i128).unwrap_or(0);
+        for n in ["token_vault_a", "token_vault_b"] {
+            let k = c.a(n);
+            if amt(post, &k) != amt(&f, &k) {
+                out.push(viol("reposition_differs_from_decomposition", idx, format!("reposition_liquidity_v2: `{}` holds {} but {} after withdraw + re-range + deposit through the Anchor implementation", n, amt(post, &k), amt(&f, &k))));
+                return;
+            }
+        }
+        for (k, start) in &topped {
+            let live = amt(post, k) - amt(pre, k);
+            let twin = amt(&f, k) - *start as i128;
+            if live != twin {
+                out.push(viol("reposition_differs_from_decomposition", idx, format!("reposition_liquidity_v2 moved {} on the owner's account {} but the decomposition nets {}", live, k, twin)));
+                return;
+            }
+        }
+        cov.probe("reposition_net_token_movement_equals_decomposition");
+    }
+}
+
 impl Monitor for C12 {
     fn name(&self) -> &'static str {
         "C12"
@@ -236,6 +398,7 @@ impl Monitor for C12 {
                 }
                 if wpix::decode(v.ix).map(|c| c.name() == "reposition_liquidity_v2").unwrap_or(false) {
                     compare_reposition_range(v.pre, v.ix, true, None, ev.idx, cov, &mut out);
+                    compare_reposition_decomposed(v.pre, v.post, v.ix, ev.idx, cov, &mut out);
                 }
             }
         } else if ev.tx.ixs.len() == 1 && rt::has_anchor_twin(&ev.tx.ixs[0]) {
